@@ -30,27 +30,27 @@ EXTENDS Store, JsonValue, Json, IOUtils
 Obs == ndJsonDeserialize(IOEnv.OBS_FILE)
 N == Len(Obs)
 
-VARIABLES i, viol
-vars == <<i, viol>>
+VARIABLES i, oi, s, last, pend, dr, viol
+vars == <<i, oi, s, last, pend, dr, viol>>
 
 (* model values as tagged JSON *)
 ToJ(P, v) == IF P.shape = "dict"
              THEN LET In(f) == f \in DOMAIN v
                       fs == SelectSeq(FieldSeq, In)
-                  IN JObj(fs, [j \in 1..Len(fs) |-> JNum(v[fs[j]])])
-             ELSE JArr([j \in 1..Len(v) |-> JNum(v[j])])
+                  IN JObj(fs, [jj \in 1..Len(fs) |-> JNum(v[fs[jj]])])
+             ELSE JArr([jj \in 1..Len(v) |-> JNum(v[jj])])
 KvToJ(P, kv) == LET In(k) == k \in DOMAIN kv
                     ks == SelectSeq(KeySeq, In)
-                IN JObj(ks, [j \in 1..Len(ks) |-> ToJ(P, kv[ks[j]])])
+                IN JObj(ks, [jj \in 1..Len(ks) |-> ToJ(P, kv[ks[jj]])])
 
-SeqToSet(q) == {q[j] : j \in 1..Len(q)}
+SeqToSet(q) == {q[jj] : jj \in 1..Len(q)}
 NoLast == [set |-> FALSE, v |-> JNull]
 InitLast(P) == [c \in ClientsOf(P) |-> [k \in Keys |-> NoLast]]
 InitPend(P) == [c \in ClientsOf(P) |-> <<>>]
 
 (* the verdict on one operation: "ok" or the name of the failed clause *)
-JudgeOp(P, s, t, o, last, pend) ==
-    LET exp == Expected(P, s, o)
+JudgeOp(P, s0, t0, o, lst, pnd) ==
+    LET exp == Expected(P, s0, o)
         out == o.out
         isKeyErr == out.kind = "exc" /\ out.cls = "KeyError"
         mapping ==
@@ -60,7 +60,7 @@ JudgeOp(P, s, t, o, last, pend) ==
                        ELSE IF o.op = "Del" /\ out.kind = "none" THEN "ok"       (* open *)
                        ELSE "StoreRefinesMapping:absent-key-not-refused")
             ELSE IF isKeyErr
-                 THEN (IF o.op = "Del" /\ ~Present(s, o.k) THEN "ok"              (* open *)
+                 THEN (IF o.op = "Del" /\ ~Present(s0, o.k) THEN "ok"              (* open *)
                        ELSE "StoreRefinesMapping:present-key-refused")
             ELSE IF exp.kind = "none" THEN (IF out.kind = "none" THEN "ok" ELSE "StoreRefinesMapping:wrong-result")
             ELSE IF exp.kind = "null"
@@ -72,44 +72,26 @@ JudgeOp(P, s, t, o, last, pend) ==
             ELSE IF exp.kind = "keys"
                  THEN (IF /\ out.kind = "keys"
                           /\ Len(out.val.a) = Cardinality(exp.ks)
-                          /\ {out.val.a[j] : j \in 1..Len(out.val.a)} = {JStr(k) : k \in exp.ks}
+                          /\ {out.val.a[jj] : jj \in 1..Len(out.val.a)} = {JStr(k) : k \in exp.ks}
                        THEN "ok" ELSE "StoreRefinesMapping:iteration")
             ELSE IF o.op = "CachedGet" /\ HasCache(P)
-                 THEN (LET cur == ToJ(P, Value(s, o.k))
-                           l == last[o.c][o.k]
+                 THEN (LET cur == ToJ(P, Value(s0, o.k))
+                           l == lst[o.c][o.k]
                        IN IF out.kind # "value" \/ out.val.t \notin {"obj", "arr"} THEN "CacheCoherent:wrong-value"
                           ELSE IF JEq(out.val, cur) THEN "ok"
                           ELSE IF l.set /\ JEq(out.val, l.v)
-                               THEN (IF o.k \in SeqToSet(pend[o.c]) THEN "ok"
+                               THEN (IF o.k \in SeqToSet(pnd[o.c]) THEN "ok"
                                      ELSE "CacheCoherent:stale-with-no-invalidation-in-flight")
                           ELSE "CacheCoherent:wrong-value")
             ELSE (IF out.kind = "value" /\ out.val.t \in {"obj", "arr"} /\ JEq(out.val, ToJ(P, exp.v)) THEN "ok"
                   ELSE IF o.op = "Get" THEN "StoreRefinesMapping:read-back" ELSE "StoreRefinesMapping:cached-read")
-        ttlv == IF HasCache(P) /\ \E j \in 1..Len(KeySeq) : o.ttl[j] # t.ttl[KeySeq[j]]
+        ttlv == IF HasCache(P) /\ \E jj \in 1..Len(KeySeq) : o.ttl[jj] # t0.ttl[KeySeq[jj]]
                 THEN "TtlApplied" ELSE "ok"
         bound == IF \E c \in ClientsOf(P) : o.csize[c] > P.cap THEN "CacheBounded" ELSE "ok"
-        reop == IF o.snap.set /\ ~JEq(o.snap.v, KvToJ(P, t.kv)) THEN "SurvivesReopen" ELSE "ok"
+        reop == IF o.snap.set /\ ~JEq(o.snap.v, KvToJ(P, t0.kv)) THEN "SurvivesReopen" ELSE "ok"
     IN <<mapping, ttlv, bound, reop>>
 
 Drifts(P, t, o) == IF HasCache(P) /\ \E c \in ClientsOf(P) : o.pend[c] # t.inflight[c] THEN 1 ELSE 0
-
-RECURSIVE Walk(_, _, _, _, _, _, _, _)
-Walk(o, P, j, s, last, pend, fails, dr) ==
-    IF j > Len(o.ops) THEN fails
-    ELSE LET op == o.ops[j]
-             t == Step(P, s, op)
-             vs == JudgeOp(P, s, t, op, last, pend)
-             bad == SelectSeq(vs, LAMBDA x : x # "ok")
-             d == Drifts(P, t, op)
-             new == [n \in 1..Len(bad) |-> [id |-> o.id, step |-> j, clause |-> bad[n], op |-> op.op]]
-                    \o (IF d = 1 /\ dr = 0 THEN <<[id |-> o.id, step |-> j, clause |-> "drift", op |-> op.op]>> ELSE <<>>)
-             last1 == IF op.op = "CachedGet" /\ HasCache(P) /\ op.out.kind = "value"
-                      THEN [last EXCEPT ![op.c][op.k] = [set |-> TRUE, v |-> op.out.val]]
-                      ELSE IF op.op = "Reopen" THEN [last EXCEPT ![op.c] = [k \in Keys |-> NoLast]]
-                      ELSE last
-         IN Walk(o, P, j + 1, t, last1, op.pend, fails \o new, dr + d)
-
-JudgePath(o) == Walk(o, o.P, 1, Init(o.P), InitLast(o.P), InitPend(o.P), <<>>, 0)
 
 JudgeBadFile(o) ==
     (* UnreadableFileStartsEmpty: opened, and as empty as Init *)
@@ -117,24 +99,49 @@ JudgeBadFile(o) ==
     ELSE <<[id |-> o.id, step |-> 0, clause |-> "UnreadableFileStartsEmpty", op |-> o.variant]>>
 
 JudgeEngineTtl(o) ==
-    IF o.n >= 1 /\ Len(o.got) = o.n /\ \A j \in 1..Len(o.got) : o.got[j] = o.want THEN <<>>
+    IF o.n >= 1 /\ Len(o.got) = o.n /\ \A jj \in 1..Len(o.got) : o.got[jj] = o.want THEN <<>>
     ELSE <<[id |-> o.id, step |-> 0, clause |-> "TtlApplied:engine", op |-> "engine"]>>
-
-Judge(o) == IF o.type = "path" THEN JudgePath(o)
-            ELSE IF o.type = "badfile" THEN JudgeBadFile(o)
-            ELSE JudgeEngineTtl(o)
 
 (* ---- known findings (signatures over the case at its root cause) ---------------------- *)
 Known == JsonDeserialize(IOEnv.KNOWN_FINDINGS)
-ActiveK == {Known.findings[j].id : j \in {j \in 1..Len(Known.findings) : Known.findings[j].status = "known"}}
+ActiveK == {Known.findings[jj].id : jj \in {jj \in 1..Len(Known.findings) : Known.findings[jj].status = "known"}}
 (* none for C20: no genuine defect of store.py was met on the explored space *)
 KF(f) == ""
 
-Init0 == i = 1 /\ viol = <<>>
-Next == /\ i <= N /\ i' = i + 1
-        /\ LET r == Judge(Obs[i])
-           IN viol' = viol \o [n \in 1..Len(r) |->
-                                 [id |-> r[n].id, clause |-> r[n].clause, kf |-> KF(r[n]), step |-> r[n].step, op |-> r[n].op]]
+(* One TLC step per operation of a path (and one per case of the other types): the model     *)
+(* state s, the client's previous cached reads `last` and the invalidations in flight `pend`   *)
+(* (as observed after the previous operation) are carried from step to step.                   *)
+DefaultP == [kind |-> "mem", shape |-> "dict", nclients |-> 1, cap |-> 1, maxlen |-> 1, maxinfl |-> 1,
+             ttl |-> 0, writer2 |-> FALSE, lite |-> FALSE]
+PathP(n) == IF n <= N /\ Obs[n].type = "path" THEN Obs[n].P ELSE DefaultP
+Mk(f) == [id |-> f.id, clause |-> f.clause, kf |-> KF(f), step |-> f.step, op |-> f.op]
+
+Init0 == /\ i = 1 /\ oi = 1 /\ viol = <<>> /\ dr = FALSE
+         /\ s = Init(PathP(1)) /\ last = InitLast(PathP(1)) /\ pend = InitPend(PathP(1))
+NextCase == /\ i' = i + 1 /\ oi' = 1 /\ dr' = FALSE
+            /\ s' = Init(PathP(i + 1)) /\ last' = InitLast(PathP(i + 1)) /\ pend' = InitPend(PathP(i + 1))
+Next ==
+    /\ i <= N
+    /\ LET o == Obs[i] IN
+       IF o.type # "path"
+       THEN /\ NextCase
+            /\ LET r == IF o.type = "badfile" THEN JudgeBadFile(o) ELSE JudgeEngineTtl(o)
+               IN viol' = viol \o [n \in 1..Len(r) |-> Mk(r[n])]
+       ELSE IF oi > Len(o.ops) THEN NextCase /\ viol' = viol
+       ELSE LET P == o.P
+                op == o.ops[oi]
+                t == Step(P, s, op)
+                vs == JudgeOp(P, s, t, op, last, pend)
+                bad == SelectSeq(vs, LAMBDA x : x # "ok")
+                d == Drifts(P, t, op) = 1 /\ ~dr
+                new == [n \in 1..Len(bad) |-> Mk([id |-> o.id, step |-> oi, clause |-> bad[n], op |-> op.op])]
+                       \o (IF d THEN <<Mk([id |-> o.id, step |-> oi, clause |-> "drift", op |-> op.op])>> ELSE <<>>)
+            IN /\ i' = i /\ oi' = oi + 1 /\ s' = t /\ pend' = op.pend /\ dr' = (dr \/ d)
+               /\ viol' = viol \o new
+               /\ last' = IF op.op = "CachedGet" /\ HasCache(P) /\ op.out.kind = "value"
+                          THEN [last EXCEPT ![op.c][op.k] = [set |-> TRUE, v |-> op.out.val]]
+                          ELSE IF op.op = "Reopen" THEN [last EXCEPT ![op.c] = [k \in Keys |-> NoLast]]
+                          ELSE last
 Spec == Init0 /\ [][Next]_vars
 Report == (i = N + 1) => PrintT("VERDICT " \o ToJson([lines |-> N, failures |-> viol]))
 =============================================================================
